@@ -45,19 +45,20 @@ package prng
 //@   props C19
 //@   assume fold0: hfold(heapid(), datas, 0) == absorb(hinit(), canon("prng seed random in BuildSeededRand"))
 //@   assume foldS: forall k: int {hfold(heapid(), datas, k)} :: 1 <= k && k <= len(datas) ==> hfold(heapid(), datas, k) == absorb(hfold(heapid(), datas, k - 1), canon(datas[k - 1]))
-//@   opt frame = skip
+//@   modifies alloc
 //@   ensures fresh: result != nil && srccnt(result) == 0
 //@   ensures seed: forall j: int :: srcseed(result)[j] == ite(0 <= j && j < 32 && j < digestlen(), digest(hfold(old(heapid()), datas, len(datas)))[j], 0)
 //@   loop 1 invariant idx: 0 - 1 <= rangeindex && rangeindex < len(datas)
 //@   loop 1 invariant absorbed: hstate(h) == hfold(old(heapid()), datas, rangeindex + 1)
+//@   loop 1 invariant others: forall x: ref :: x != h ==> hstate(x) == old(hstate(x))
 //
 //@ func SourceToReader
 //@   props C19
-//@   opt frame = skip
+//@   modifies alloc
 //@   ensures result != nil && cast(result, randReader).src == src && cast(result, randReader).off == 0
 //
 //@ func BuildSeededReader
 //@   props C19
-//@   opt frame = skip
+//@   modifies alloc
 //@   ensures start: result != nil && cast(result, randReader).off == 0 && cast(result, randReader).src != nil && srccnt(cast(result, randReader).src) == 0
 //@   ensures seed: forall j: int :: srcseed(cast(result, randReader).src)[j] == ite(0 <= j && j < 32 && j < digestlen(), digest(hfold(old(heapid()), datas, len(datas)))[j], 0)
